@@ -46,11 +46,7 @@ func checkC06(w *World, r *Result) {
 		}
 	}
 	// the positional enum conversion is only sound under the IsIota precondition (rules shared with C10)
-	subI := &Result{}
-	checkSetIsIota(w, subI)
-	for _, o := range subI.Obs {
-		r.add(o)
-	}
+	shared(r, nil, func(sub *Result) { checkSetIsIota(w, sub) })
 	checkDartEnumAndImplements(w, r)
 	// `implements` lists what Struct.Implements holds: that table is filled for every struct of the memo (rule shared with C11)
 	checkImplements(w, r)
